@@ -523,6 +523,7 @@ func class(code int) string {
 // Exec runs one common op line and returns the observation.
 //
 //	set i now id start end comment sets big   -> ok|<err> <alias|-> <bcasts> <dump>
+//	setq i now id start end comment sets big  -> as set; the proto handed to Set is the one Silences.QueryOne(QIDs(id)) returned, edited in place
 //	post i now id start end comment sets big  -> 200|400|404 <alias|-> <bcasts> <dump>     (HTTP POST /api/v2/silences)
 //	expire i now id                           -> ok|notfound <bcasts> <dump>
 //	delete i now id                           -> 200|404|… <bcasts> <dump>                  (HTTP DELETE /api/v2/silence/{id})
@@ -551,6 +552,27 @@ func (w *World) Exec(line string) string {
 		p := w.SilToPB(parseIn(t[3], t[4], t[5], t[6], t[7]))
 		p.UpdatedAt = nil
 		err := in.S.Set(ctx, p)
+		id := "-"
+		if err == nil {
+			id = w.Alias(p.Id)
+		}
+		return fmt.Sprintf("%s %s %s %s", errEnum(err), id, bcStr(w.TakeBC(i)), w.Dump(i))
+	case "setq":
+		// the read-modify-write edit of an in-process caller: look the silence up by id, change the
+		// object that came back field by field, hand it to Set.  What a query returns is the caller's
+		// to modify (Silences.query clones), so this is `set` with the same requested values.
+		w.SleepTo(hx.Atoi64(t[2]))
+		want := w.SilToPB(parseIn(t[3], t[4], t[5], t[6], t[7]))
+		p, err := in.S.QueryOne(ctx, silence.QIDs(want.Id))
+		if err != nil || p == nil {
+			p = want // unknown id: nothing to look up
+		} else {
+			p.MatcherSets, p.Matchers = want.MatcherSets, nil
+			p.StartsAt, p.EndsAt = want.StartsAt, want.EndsAt
+			p.Comment, p.Comments, p.CreatedBy = want.Comment, nil, want.CreatedBy
+		}
+		p.UpdatedAt = nil
+		err = in.S.Set(ctx, p)
 		id := "-"
 		if err == nil {
 			id = w.Alias(p.Id)
